@@ -100,7 +100,7 @@ Definition is_lt (c : comparison) : bool := match c with Lt => true | _ => false
 Lemma compare_agree a : forall t b, typed a t -> typed b t -> comparable t = true ->
   exists c, v_compare (erase a) (erase b) = Some c /\ py_eq a b = is_eq c /\ py_lt a b = is_lt c.
 Proof.
-  induction a as [z|z|s|b0| |x y IHx IHy|t0|x IHx|x t0 IHx|t0 x IHx|t0 l IHl] using pval_ind';
+  induction a as [z|z|s|s|b0| |x y IHx IHy|t0|x IHx|x t0 IHx|t0 x IHx|t0 l IHl] using pval_ind';
     intros t b Ha Hb Hc; pose proof Ha as Ha'; unfold typed in Ha'; destruct t; simpl in Ha'; try discriminate Ha';
     simpl in Hc; try discriminate Hc.
   - apply typed_int_inv in Hb as [w ->]. simpl. exists (Z.compare z w). split; [reflexivity|].
@@ -110,6 +110,8 @@ Proof.
     destruct (Z.compare_spec z w); split; try (apply Z.eqb_eq; assumption); try (apply Z.eqb_neq; lia);
       try (apply Z.ltb_lt; lia); try (apply Z.ltb_ge; lia).
   - apply typed_string_inv in Hb as [w ->]. simpl. exists (bytes_cmp s w). split; [reflexivity|].
+    split; [apply bytes_cmp_eqb | apply bytes_cmp_ltb].
+  - apply typed_bytes_inv in Hb as [w ->]. simpl. exists (bytes_cmp s w). split; [reflexivity|].
     split; [apply bytes_cmp_eqb | apply bytes_cmp_ltb].
   - apply typed_bool_inv in Hb as [w ->]. simpl. eexists. split; [reflexivity|]. destruct b0, w; split; reflexivity.
   - apply typed_unit_inv in Hb as ->. simpl. exists Eq. auto.
@@ -163,6 +165,7 @@ Ltac inv_ty :=
          | H : typed _ TInt |- _ => apply typed_int_inv in H as [? ->]
          | H : typed _ TNat |- _ => apply typed_nat_inv in H as (? & -> & ?)
          | H : typed _ TString |- _ => apply typed_string_inv in H as [? ->]
+         | H : typed _ TBytes |- _ => apply typed_bytes_inv in H as [? ->]
          | H : typed _ TBool |- _ => apply typed_bool_inv in H as [? ->]
          | H : typed _ (TPair _ _) |- _ => apply typed_pair_inv in H as (? & ? & -> & ? & ?)
          | H : typed _ (TList _) |- _ => apply typed_list_inv' in H as (? & -> & ?)
@@ -173,6 +176,7 @@ Ltac give_args :=
   | |- exists args rest, ?v = args ++ rest /\ length args = 0 /\ _ => exists [], v
   | |- exists args rest, ?a :: ?v = args ++ rest /\ length args = 1 /\ _ => exists [a], v
   | |- exists args rest, ?a :: ?b :: ?v = args ++ rest /\ length args = 2 /\ _ => exists [a; b], v
+  | |- exists args rest, ?a :: ?b :: ?c :: ?v = args ++ rest /\ length args = 3 /\ _ => exists [a; b; c], v
   end; split; [reflexivity | split; [reflexivity|]].
 
 Ltac solve_typed :=
@@ -197,6 +201,7 @@ Lemma simple_agree i k fn s s1 vis :
   exists args rest, vis = args ++ rest /\ length args = k /\
     match ref_simple i (map erase vis) with
     | Done r => exists outs, fn args = POk outs /\ map erase (outs ++ rest) = r /\ styped (outs ++ rest) s1
+    | RtError => fn args = PErr
     | _ => False
     end.
 Proof.
@@ -277,14 +282,32 @@ Proof.
     eexists; split; [reflexivity | split; [simpl; rewrite ?Z.gtb_ltb, ?Z.geb_leb; reflexivity | constructor; [reflexivity | assumption]]].
   - tc_cases Htc. injection Htc as <-. inv_f2. inv_ty. give_args. simpl.
     eexists; split; [reflexivity | split; [simpl; rewrite ?Z.gtb_ltb, ?Z.geb_leb; reflexivity | constructor; [reflexivity | assumption]]].
-  - (* AND *) tc_cases Htc. injection Htc as <-. inv_f2. inv_ty. give_args. simpl.
-    eexists; split; [reflexivity | split; [reflexivity | constructor; [reflexivity | assumption]]].
-  - (* OR *) tc_cases Htc. injection Htc as <-. inv_f2. inv_ty. give_args. simpl.
-    eexists; split; [reflexivity | split; [reflexivity | constructor; [reflexivity | assumption]]].
-  - (* XOR *) tc_cases Htc. injection Htc as <-. inv_f2. inv_ty. give_args. simpl.
-    eexists; split; [reflexivity | split; [reflexivity | constructor; [reflexivity | assumption]]].
-  - (* NOT *) tc_cases Htc. injection Htc as <-. inv_f2. inv_ty. give_args. simpl.
-    eexists; split; [reflexivity | split; [reflexivity | constructor; [reflexivity | assumption]]].
+  - (* AND *) tc_cases Htc; injection Htc as <-; inv_f2; inv_ty; give_args; simpl;
+      (rewrite ?nat_from_ok by (apply Z.land_nonneg; lia));
+      (eexists; split; [reflexivity | split; [reflexivity | constructor; [try (apply typed_nat_intro; apply Z.land_nonneg; lia); reflexivity | assumption]]]).
+  - (* OR *) tc_cases Htc; injection Htc as <-; inv_f2; inv_ty; give_args; simpl;
+      (rewrite ?nat_from_ok by (apply Z.lor_nonneg; lia));
+      (eexists; split; [reflexivity | split; [reflexivity | constructor; [try (apply typed_nat_intro; apply Z.lor_nonneg; lia); reflexivity | assumption]]]).
+  - (* XOR *) tc_cases Htc; injection Htc as <-; inv_f2; inv_ty; give_args; simpl;
+      (rewrite ?nat_from_ok by (apply Z.lxor_nonneg; lia));
+      (eexists; split; [reflexivity | split; [reflexivity | constructor; [try (apply typed_nat_intro; apply Z.lxor_nonneg; lia); reflexivity | assumption]]]).
+  - (* NOT *) tc_cases Htc; injection Htc as <-; inv_f2; inv_ty; give_args; simpl;
+      (eexists; split; [reflexivity | split; [simpl; unfold Z.lnot; repeat f_equal; lia | constructor; [reflexivity | assumption]]]).
+  - (* LSL *) tc_cases Htc. injection Htc as <-. inv_f2. inv_ty. give_args. simpl. unfold py_shift.
+    match goal with |- context [(?y <=? 256)%Z] => replace (y <? 257)%Z with (y <=? 256)%Z by (destruct (y <=? 256)%Z eqn:E1, (y <? 257)%Z eqn:E2; try reflexivity; [apply Z.leb_le in E1; apply Z.ltb_ge in E2 | apply Z.leb_gt in E1; apply Z.ltb_lt in E2]; lia); destruct (y <=? 256)%Z; [|reflexivity] end.
+    rewrite Z.shiftl_mul_pow2 by assumption.
+    rewrite nat_from_ok by (apply Z.mul_nonneg_nonneg; [assumption | apply Z.pow_nonneg; lia]).
+    eexists; split; [reflexivity | split; [reflexivity | constructor; [apply typed_nat_intro; apply Z.mul_nonneg_nonneg; [assumption | apply Z.pow_nonneg; lia] | assumption]]].
+  - (* LSR *) tc_cases Htc. injection Htc as <-. inv_f2. inv_ty. give_args. simpl. unfold py_shift.
+    match goal with |- context [(?y <=? 256)%Z] => replace (y <? 257)%Z with (y <=? 256)%Z by (destruct (y <=? 256)%Z eqn:E1, (y <? 257)%Z eqn:E2; try reflexivity; [apply Z.leb_le in E1; apply Z.ltb_ge in E2 | apply Z.leb_gt in E1; apply Z.ltb_lt in E2]; lia); destruct (y <=? 256)%Z; [|reflexivity] end.
+    rewrite Z.shiftr_div_pow2 by assumption.
+    rewrite nat_from_ok by (apply Z.div_pos; [assumption | apply Z.pow_pos_nonneg; lia]).
+    eexists; split; [reflexivity | split; [reflexivity | constructor; [apply typed_nat_intro; apply Z.div_pos; [assumption | apply Z.pow_pos_nonneg; lia] | assumption]]].
+  - (* SLICE *) tc_cases Htc; injection Htc as <-; inv_f2; inv_ty; give_args; simpl; unfold py_slice;
+      match goal with |- context [(?o <? ?n)%Z && (?o + ?l <=? ?n)%Z] => destruct ((o <? n)%Z && (o + l <=? n)%Z) eqn:E end;
+      try (eexists; split; [reflexivity | split; [reflexivity | constructor; [reflexivity | assumption]]]);
+      (rewrite Z2Nat.inj_add by assumption); (rewrite Nat.add_comm, Nat.add_sub);
+      (eexists; split; [reflexivity | split; [reflexivity | constructor; [reflexivity | assumption]]]).
   - (* FAILWITH: not typed by tc_simple *) discriminate Htc.
 Qed.
 
@@ -296,6 +319,7 @@ Qed.
 Definition sim_rel (R : tcres) (pre : list pval) (oref : outcome) (opy : poutcome) : Prop :=
   match oref with
   | OutOfFuel => opy = POutOfFuel
+  | RtError => opy = PError
   | Stuck => False
   | Failed v => exists pv, opy = PFailed pv /\ erase pv = v
   | Done r => exists vis', opy = PDone (mkst pre vis') /\ map erase vis' = r /\
@@ -305,12 +329,13 @@ Definition sim_rel (R : tcres) (pre : list pval) (oref : outcome) (opy : poutcom
 Lemma sim_bind R1 R pre o1 p1 (kr : list value -> outcome) (kp : pstack -> poutcome) :
   sim_rel R1 pre o1 p1 ->
   (forall s1 vis', R1 = Typed s1 -> styped vis' s1 -> sim_rel R pre (kr (map erase vis')) (kp (mkst pre vis'))) ->
-  sim_rel R pre (match o1 with Done r => kr r | Failed v => Failed v | OutOfFuel => OutOfFuel | Stuck => Stuck end)
+  sim_rel R pre (match o1 with Done r => kr r | Failed v => Failed v | RtError => RtError | OutOfFuel => OutOfFuel | Stuck => Stuck end)
                 (match p1 with PDone st => kp st | PFailed v => PFailed v | PError => PError | POutOfFuel => POutOfFuel end).
 Proof.
   intros H K. destruct o1; simpl in *.
   - destruct H as (vis' & -> & <- & HR). destruct R1; [|contradiction]. apply (K _ _ eq_refl HR).
   - destruct H as (pv & -> & <-). eauto.
+  - subst p1. reflexivity.
   - subst p1. reflexivity.
   - contradiction.
 Qed.
@@ -338,6 +363,13 @@ Proof.
   apply typed_string_inv in Hx as [s ->]. destruct IH as (t & E1 & E2). simpl. rewrite E1, E2. simpl. eauto.
 Qed.
 
+Lemma py_join_bytes_agree l : Forall (fun x => typed x TBytes) l ->
+  exists s, py_join_bytes l = Some s /\ concat_strs (map erase l) = Some s.
+Proof.
+  induction 1 as [|x l Hx Hl IH]; simpl; [eauto|].
+  apply typed_bytes_inv in Hx as [s ->]. destruct IH as (t & E1 & E2). simpl. rewrite E1, E2. simpl. eauto.
+Qed.
+
 Lemma py_simple_none_tc i s : py_simple i = None -> is_shuffle i = false -> i <> I_CONCAT -> tc_simple i s = None.
 Proof. destruct i; simpl; intros; try discriminate; try reflexivity. congruence. Qed.
 
@@ -351,7 +383,8 @@ Proof.
   destruct (simple_agree i k fn s s1 vis Hpy E Hs) as (args & rest & -> & L & H).
   unfold py_exec_simple. rewrite (pop_mkst pre args rest k L).
   destruct (ref_simple i (map erase (args ++ rest))); try contradiction.
-  destruct H as (outs & -> & M & T). unfold push_all. rewrite push_all_mkst. simpl. eauto.
+  - destruct H as (outs & -> & M & T). unfold push_all. rewrite push_all_mkst. simpl. eauto.
+  - rewrite H. reflexivity.
 Qed.
 
 Lemma sim_shuffle f i s R pre vis :
@@ -429,6 +462,7 @@ Section Sim.
                                        Forall (fun x => typed x b) pys /\ styped rest' r
     | MStop (Failed v) => exists pv, pm = PMStop (PFailed pv) /\ erase pv = v
     | MStop OutOfFuel => pm = PMStop POutOfFuel
+    | MStop RtError => pm = PMStop PError
     | MStop _ => False
     end.
 
@@ -441,13 +475,14 @@ Section Sim.
     - inversion Hl as [|? ? Hx Hl']; subst. rewrite push_mkst.
       assert (Hs : styped (x :: rest) (a :: r)) by (constructor; assumption).
       pose proof (IH c _ _ pre _ Hc Hs) as H. simpl in H.
-      destruct (ref_eval f c (erase x :: map erase rest)) as [s1|v| |]; simpl in H |- *.
+      destruct (ref_eval f c (erase x :: map erase rest)) as [s1|v| | |]; simpl in H |- *.
       + destruct H as (vis' & -> & <- & T). inversion T as [|y ? vis'' ? Hy T']; subst. simpl. rewrite pop1_mkst.
         specialize (IHl vis'' Hl' T').
         destruct (ref_map (ref_eval f c) (map erase l) (map erase vis'')) as [ys s2|o]; simpl in IHl |- *.
         * destruct IHl as (pys & rest' & -> & <- & <- & Tp & Tr). exists (y :: pys), rest'. repeat split; auto.
-        * destruct o; try contradiction; [destruct IHl as (pv & -> & <-); eauto | rewrite IHl; reflexivity].
+        * destruct o; try contradiction; [destruct IHl as (pv & -> & <-); eauto | rewrite IHl; reflexivity | rewrite IHl; reflexivity].
       + destruct H as (pv & -> & <-). eauto.
+      + rewrite H. reflexivity.
       + rewrite H. reflexivity.
       + contradiction.
   Qed.
@@ -478,10 +513,11 @@ Section Sim.
       destruct (split_at_app (map erase a) (map erase b) (length a)) as [Esk Efi]; [apply map_length|].
       rewrite Esk, Efi.
       pose proof (IH c _ _ (pre ++ a) b Ec Tb) as H.
-      destruct (ref_eval f c (map erase b)) as [r0|v| |]; simpl in H |- *.
+      destruct (ref_eval f c (map erase b)) as [r0|v| | |]; simpl in H |- *.
       + destruct H as (vis' & -> & <- & T). rewrite restore_mkst.
         exists (a ++ vis'). rewrite map_app. repeat split; auto. apply Forall2_app; assumption.
       + destruct H as (pv & -> & <-). eauto.
+      + rewrite H. reflexivity.
       + rewrite H. reflexivity.
       + contradiction.
     - (* IF *)
@@ -575,7 +611,7 @@ Section Sim.
           rewrite F, push_mkst. rewrite (typed_rt_type y a Hy).
           exists (PList a (y :: pys) :: rest'). repeat split; auto.
           constructor; [apply typed_list_intro; assumption | assumption].
-      + destruct o; try contradiction; simpl; [destruct H as (pv & -> & <-); simpl; eauto | rewrite H; reflexivity].
+      + destruct o; try contradiction; simpl; [destruct H as (pv & -> & <-); simpl; eauto | rewrite H; reflexivity | rewrite H; reflexivity].
     - (* CONCAT *)
       unfold option_map in Htc. destruct (tc_simple I_CONCAT s) as [s1|] eqn:E; [|discriminate]. injection Htc as <-.
       simpl in E. destruct s as [|[] r]; try discriminate.
@@ -584,10 +620,17 @@ Section Sim.
         apply typed_string_inv in Hv as [x ->]. apply typed_string_inv in Hw as [y ->].
         simpl. rewrite !pop1_mkst, push_mkst. exists (PStr (x ++ y) :: rest). repeat split; auto.
         constructor; [reflexivity | assumption].
-      + destruct a; try discriminate. injection E as <-.
-        inversion Hs as [|v ? rest ? Hv Hr]; subst. apply typed_list_inv' in Hv as (l & -> & Hl).
-        destruct (py_join_agree l Hl) as (x & E1 & E2). simpl. rewrite pop1_mkst, E1, E2, push_mkst.
-        exists (PStr x :: rest). repeat split; auto. constructor; [reflexivity | assumption].
+      + destruct r as [|[] r]; try discriminate. injection E as <-.
+        inversion Hs as [|v ? rest0 ? Hv Hr0]; subst. inversion Hr0 as [|w ? rest ? Hw Hr]; subst.
+        apply typed_bytes_inv in Hv as [x ->]. apply typed_bytes_inv in Hw as [y ->].
+        simpl. rewrite !pop1_mkst, push_mkst. exists (PBytes (x ++ y) :: rest). repeat split; auto.
+        constructor; [reflexivity | assumption].
+      + destruct a; try discriminate; injection E as <-;
+          inversion Hs as [|v ? rest ? Hv Hr]; subst; apply typed_list_inv' in Hv as (l & -> & Hl).
+        * destruct (py_join_agree l Hl) as (x & E1 & E2). simpl. rewrite pop1_mkst, E1, E2, push_mkst.
+          exists (PStr x :: rest). repeat split; auto. constructor; [reflexivity | assumption].
+        * destruct (py_join_bytes_agree l Hl) as (x & E1 & E2). simpl. rewrite pop1_mkst, E1, E2, push_mkst.
+          exists (PBytes x :: rest). repeat split; auto. constructor; [reflexivity | assumption].
     - (* FAILWITH *)
       destruct s as [|t r]; [discriminate|]. injection Htc as <-. inversion Hs as [|v ? rest ? Hv Hr]; subst.
       simpl. unfold py_exec_simple. change (v :: rest) with ([v] ++ rest). rewrite (pop_mkst pre [v] rest 1 eq_refl).
@@ -613,7 +656,7 @@ Definition erase_outcome (o : poutcome) : outcome :=
   match o with
   | PDone st => Done (map erase (view st))
   | PFailed v => Failed (erase v)
-  | PError => Stuck
+  | PError => RtError
   | POutOfFuel => OutOfFuel
   end.
 
@@ -628,6 +671,7 @@ Proof.
   - destruct H as (vis' & -> & <- & _). simpl. rewrite view_mkst. reflexivity.
   - destruct H as (pv & -> & <-). reflexivity.
   - rewrite H. reflexivity.
+  - rewrite H. reflexivity.
   - contradiction.
 Qed.
 
@@ -641,6 +685,7 @@ Proof.
   - destruct H as (vis' & Q & _ & T). injection Q as ->. rewrite hidden_mkst, view_mkst. repeat split; auto.
     destruct R; [eauto | contradiction].
   - destruct H as (pv & Q & _). discriminate.
+  - discriminate.
   - discriminate.
   - contradiction.
 Qed.
